@@ -21,7 +21,10 @@ cd /; rm -rf $scratch
 echo "demo without change: $r_without"; echo "demo with change:    $r_with"; echo "suite with change:    ${r_suite:-all ok}"
 if [ -n "$(git -C /repo status --porcelain)" ]; then echo "refusing: /repo has uncommitted changes"; exit 3; fi
 cd /repo && git apply $out/patch.diff || { echo "git apply failed"; exit 2; }
-res=$(cd /verif && ./check $prop quick 2>&1 | cut -c1-300)
+# the evidence of a changed tree must not overwrite the committed evidence: separate output directory
+evout=$(mktemp -d /tmp/seeded-ev.XXXXXX)
+res=$(cd /verif && GOFLAGS=-mod=mod GOPROXY=off GOSUMDB=off GOTOOLCHAIN=local /verif/bin/govc check -prop $prop -tier quick -timeout 10 -outdir $evout 2>&1 | sed "s|$evout|/verif|" | cut -c1-300)
+rm -rf $evout
 rc=$?
 git -C /repo checkout -- . 
 echo "check $prop on the changed tree:"; echo "$res" | head -8
